@@ -131,7 +131,7 @@ func c45Targets(nodes []*a7Node, pre []string, out *[]c45Target) {
 //	cli     the real `restic dump [-a tar|zip] <snapshot> <path>` through the CLI (stdout captured)
 //	direct  dump.New(...).DumpTree / WriteNode on a loader with per-blob delays (loader schedules)
 func streamC45(h *H) {
-	n := h.N(120, 5000)
+	n := h.N(120, 4000)
 	var r *a7Repo
 	for i := 0; i < n; i++ {
 		if i%40 == 0 {
